@@ -1,0 +1,38 @@
+//go:build verif
+
+package graphql
+
+import "context"
+
+// Simulation yield points used by the verification harness in /verif.
+// With the `verif` build tag every yield point forwards to one hook
+// function installed by the harness; nil means "do nothing".
+
+var simHook func(ctx context.Context, site string)
+
+// SetSimHook installs the function called at every yield point. It must
+// be called before any other goroutine uses the package.
+func SetSimHook(f func(ctx context.Context, site string)) { simHook = f }
+
+func simYield(site string) {
+	if simHook != nil {
+		simHook(nil, site)
+	}
+}
+
+func simYieldCtx(ctx context.Context, site string) {
+	if simHook != nil {
+		simHook(ctx, site)
+	}
+}
+
+// PlanCacheLenForVerif reports the number of entries the cache retains
+// (map size and LRU list length), read under the cache's own mutex.
+func PlanCacheLenForVerif(c *PlanCache) (mapLen, listLen int) {
+	if c == nil {
+		return 0, 0
+	}
+	c.mu.Lock()
+	defer c.mu.Unlock()
+	return len(c.entries), c.order.Len()
+}
